@@ -1079,7 +1079,18 @@ def rule_stmt_roundtrip(chk, prefix="C09.stmt"):
             a[1].set(a[1].get() + "\u00ab%s\u00bb" % tag_of(e))
             return ok(())
         return fn
-    fext = {"format_expression": emit(lambda e: e.fields["tag"]), "format_variable_definition": emit(lambda e: e.fields["tag"]), "format_attributes": lambda a: ok(())}
+    def emit_attributes(a):
+        out = [x for x in a[1:] if isinstance(x, I.Ref) and isinstance(x.get(), str)][0]
+        for at in deref(a[0]):
+            out.set(out.get() + "\u00ab%s\u00bb " % deref(at).fields["tag"])
+        return ok(())
+    AT = lambda t: I.Enum("Attribute", "Tagged", {"tag": "A" + t})
+
+    def WA(st, *tags):
+        """the statement with attributes (opaque tags `A..` on both sides)"""
+        st.fields["attributes"] = [AT(t) for t in tags]
+        return st
+    fext = {"format_expression": emit(lambda e: e.fields["tag"]), "format_variable_definition": emit(lambda e: e.fields["tag"]), "format_attributes": emit_attributes}
     KW = {"if": "If", "else": "Else", "for": "For", "while": "While", "do": "Do", "switch": "Switch", "break": "Break", "continue": "Continue", "discard": "Discard",
           "return": "Return", "case": "Case", "default": "Default"}
     PU = {"(": "LeftParen", ")": "RightParen", ";": "Semicolon", ":": "Colon", "{": "LeftBrace", "}": "RightBrace"}
@@ -1111,7 +1122,8 @@ def rule_stmt_roundtrip(chk, prefix="C09.stmt"):
                 return ok((list(inp[1:]), build(inp[0].fields["0"].fields["0"].fields["0"])))
             return fail(inp)
         return fn
-    pext = {"parse_expression": consume(lambda t: not t.startswith("v"), E), "parse_vardef": consume(lambda t: t.startswith("v"), V), "parse_attribute": lambda a: fail(deref(a[0]))}
+    pext = {"parse_expression": consume(lambda t: not t.startswith(("v", "A")), E), "parse_vardef": consume(lambda t: t.startswith("v"), V),
+            "parse_attribute": consume(lambda t: t.startswith("A"), lambda t: I.Enum("Attribute", "Tagged", {"tag": t}))}
 
     def norm(v):
         if isinstance(v, I.Enum):
@@ -1132,8 +1144,16 @@ def rule_stmt_roundtrip(chk, prefix="C09.stmt"):
              "While": [S("While", E("c"), leaf("b")), S("While", E("c"), blk(leaf("b"), S("Break")))],
              "DoWhile": [S("DoWhile", leaf("b"), E("c")), S("DoWhile", blk(leaf("b")), E("c")), S("DoWhile", blk(S("DoWhile", blk(leaf("b")), E("d"))), E("c"))],
              "Switch": [S("Switch", E("c"), blk(S("CaseLabel", E("k"), leaf("x")), S("Break"), S("CaseLabel", E("j"), S("CaseLabel", E("m"), S("Empty"))), S("DefaultLabel", S("Break"))))],
-             "Break": [S("Break")], "Continue": [S("Continue")], "Discard": [S("Discard")], "Return": [S("Return", opt(E("r"))), S("Return", opt(None))],
+             "Break": [S("Break"), WA(S("Break"), "x")], "Continue": [S("Continue")], "Discard": [S("Discard")], "Return": [S("Return", opt(E("r"))), S("Return", opt(None))],
              "CaseLabel": [S("CaseLabel", E("k"), leaf("x")), S("CaseLabel", E("k"), S("Empty"))], "DefaultLabel": [S("DefaultLabel", leaf("x")), S("DefaultLabel", S("Empty"))]}
+    cases["If"] += [WA(S("If", E("c"), blk(leaf("t"))), "branch"), S("If", E("c"), WA(S("While", E("d"), leaf("b")), "loop")), S("If", E("c"), blk(WA(leaf("t"), "a"), WA(S("If", E("d"), leaf("u")), "flatten")))]
+    cases["IfElse"] += [S("IfElse", E("c"), blk(leaf("t")), WA(S("If", E("d"), blk(leaf("u"))), "flatten")), WA(S("IfElse", E("c"), blk(leaf("t")), WA(S("IfElse", E("d"), blk(leaf("u")), WA(S("If", E("e"), blk(leaf("w"))), "flatten")), "branch")), "branch"),
+                        S("IfElse", E("c"), WA(leaf("t"), "a"), WA(blk(leaf("f")), "b"))]
+    cases["For"] += [WA(S("For", init_v, opt(E("c")), opt(E("n")), WA(blk(leaf("b")), "inner")), "unroll")]
+    cases["While"] += [WA(S("While", E("c"), WA(leaf("b"), "a")), "loop")]
+    cases["DoWhile"] += [WA(S("DoWhile", WA(blk(leaf("b")), "a"), E("c")), "loop")]
+    cases["Switch"] += [WA(S("Switch", E("c"), blk(S("CaseLabel", E("k"), WA(leaf("x"), "a")), S("Break"))), "forcecase")]
+    cases["Block"] += [blk(WA(leaf("x"), "a", "b"), WA(S("Var", V("v")), "c"), WA(blk(), "d"))]
     kinds = f.variants("ast_statements::StatementKind", "rssl_ast") or []
     n = 0
     for k in kinds:
